@@ -24,6 +24,14 @@ type world struct {
 	pkgs  []*packages.Package
 	funcs map[*types.Func]*funcInfo
 	byKey map[string]*funcInfo
+	// package-level variables with an initialiser: a function that mentions the variable may end up
+	// calling whatever function values the initialiser stores (e.g. the table of attestation callbacks)
+	varInit map[*types.Var]varInit
+}
+
+type varInit struct {
+	expr ast.Expr
+	pkg  *packages.Package
 }
 
 const modPath = "github.com/palomachain/paloma/v2"
@@ -39,7 +47,7 @@ func loadWorld() *world {
 	if err != nil {
 		fail("packages.Load: %v", err)
 	}
-	w := &world{funcs: map[*types.Func]*funcInfo{}, byKey: map[string]*funcInfo{}}
+	w := &world{funcs: map[*types.Func]*funcInfo{}, byKey: map[string]*funcInfo{}, varInit: map[*types.Var]varInit{}}
 	for _, p := range pkgs {
 		if len(p.Errors) > 0 {
 			fail("package %s does not type-check: %v", p.PkgPath, p.Errors[0])
@@ -51,6 +59,21 @@ func loadWorld() *world {
 				continue
 			}
 			for _, d := range f.Decls {
+				if gd, ok := d.(*ast.GenDecl); ok && gd.Tok == token.VAR {
+					for _, sp := range gd.Specs {
+						vs := sp.(*ast.ValueSpec)
+						for i, n := range vs.Names {
+							if v, _ := p.TypesInfo.Defs[n].(*types.Var); v != nil && len(vs.Values) > 0 {
+								e := vs.Values[0]
+								if len(vs.Values) == len(vs.Names) {
+									e = vs.Values[i]
+								}
+								w.varInit[v] = varInit{e, p}
+							}
+						}
+					}
+					continue
+				}
 				fd, ok := d.(*ast.FuncDecl)
 				if !ok || fd.Body == nil {
 					continue
@@ -116,7 +139,8 @@ func offPath(fi *funcInfo) bool {
 	return false
 }
 
-// callees of a function body: static functions and concrete methods are resolved exactly,
+// callees of a function body (function literals included): every own function or concrete method the
+// body mentions - called or taken as a value - is resolved exactly,
 // interface method calls conservatively to every own method with that name whose receiver
 // implements the interface.
 func (w *world) callees(fi *funcInfo) []*types.Func {
@@ -128,58 +152,54 @@ func (w *world) callees(fi *funcInfo) []*types.Func {
 			out = append(out, f)
 		}
 	}
-	info := fi.pkg.TypesInfo
-	ast.Inspect(fi.decl.Body, func(n ast.Node) bool {
-		ce, ok := n.(*ast.CallExpr)
-		if !ok {
-			return true
-		}
-		var id *ast.Ident
-		switch f := ce.Fun.(type) {
-		case *ast.Ident:
-			id = f
-		case *ast.SelectorExpr:
-			id = f.Sel
-		case *ast.IndexExpr: // generic instantiation f[T](…)
-			switch g := f.X.(type) {
-			case *ast.Ident:
-				id = g
-			case *ast.SelectorExpr:
-				id = g.Sel
+	// every USE of a function or method counts, called on the spot or passed on as a value
+	// (callbacks such as `AttestFn: k.attestRouter` are invoked later through the field)
+	seenVar := map[*types.Var]bool{}
+	var visit func(root ast.Node, info *types.Info)
+	visit = func(root ast.Node, info *types.Info) {
+		ast.Inspect(root, func(n ast.Node) bool {
+			id, ok := n.(*ast.Ident)
+			if !ok {
+				return true
 			}
-		}
-		if id == nil {
-			return true
-		}
-		fn, _ := info.Uses[id].(*types.Func)
-		if fn == nil {
-			return true
-		}
-		fn = fn.Origin()
-		sig, _ := fn.Type().(*types.Signature)
-		if sig != nil && sig.Recv() != nil {
-			if _, isIface := sig.Recv().Type().Underlying().(*types.Interface); isIface {
-				iface := sig.Recv().Type().Underlying().(*types.Interface)
-				for cand, cfi := range w.funcs {
-					if cand.Name() != fn.Name() {
-						continue
-					}
-					csig, _ := cand.Type().(*types.Signature)
-					if csig == nil || csig.Recv() == nil {
-						continue
-					}
-					rt := csig.Recv().Type()
-					if types.Implements(rt, iface) || types.Implements(types.NewPointer(rt), iface) {
-						_ = cfi
-						add(cand)
-					}
+			if v, _ := info.Uses[id].(*types.Var); v != nil {
+				if vi, ok := w.varInit[v]; ok && !seenVar[v] {
+					seenVar[v] = true
+					visit(vi.expr, vi.pkg.TypesInfo)
 				}
 				return true
 			}
-		}
-		add(fn)
-		return true
-	})
+			fn, _ := info.Uses[id].(*types.Func)
+			if fn == nil {
+				return true
+			}
+			fn = fn.Origin()
+			sig, _ := fn.Type().(*types.Signature)
+			if sig != nil && sig.Recv() != nil {
+				if _, isIface := sig.Recv().Type().Underlying().(*types.Interface); isIface {
+					iface := sig.Recv().Type().Underlying().(*types.Interface)
+					for cand, cfi := range w.funcs {
+						if cand.Name() != fn.Name() {
+							continue
+						}
+						csig, _ := cand.Type().(*types.Signature)
+						if csig == nil || csig.Recv() == nil {
+							continue
+						}
+						rt := csig.Recv().Type()
+						if types.Implements(rt, iface) || types.Implements(types.NewPointer(rt), iface) {
+							_ = cfi
+							add(cand)
+						}
+					}
+					return true
+				}
+			}
+			add(fn)
+			return true
+		})
+	}
+	visit(fi.decl.Body, fi.pkg.TypesInfo)
 	sort.Slice(out, func(i, j int) bool { return funcKey(out[i]) < funcKey(out[j]) })
 	return out
 }
